@@ -177,6 +177,48 @@ func c06EcoUnit(name string, lvl int) core.Unit {
 			c.checkRange(s)
 			r.Add("states", 1)
 		}
+		// every comparator and shorthand operator applied to every accepted universe version
+		// (4-component, over-long digit runs, odd spellings), evaluated on the usual probes and on
+		// the bound itself
+		syn := gen.SyntaxTable[name]
+		opSet := gen.Uniq(append(append([]string{}, syn.Ops...), "^", "~", "~>", "~> ", "~=", "=", "==", "", "!=", ">= "))
+		saved := c.probes
+		for _, vs := range gen.Uniq(gen.Versions(name, 0)) {
+			var bv eco.Ver
+			var berr error
+			if pan, exc, _ := withBudget(len(vs), func() { bv, berr = e.Parse(vs) }); pan != nil || exc || berr != nil {
+				continue
+			}
+			c.probes = append(append([]eco.Ver{}, saved...), bv)
+			for _, op := range opSet {
+				c.checkRange(op + vs + syn.SingleSuffix)
+				r.Add("states", 1)
+			}
+			for _, rs := range []string{vs + ".*", vs + ".x", "[" + vs + "]", "[" + vs + ",)", "(," + vs + "]", vs + " - " + vs, "(" + vs + "," + vs + ")"} {
+				c.checkRange(rs)
+				r.Add("states", 1)
+			}
+		}
+		c.probes = saved
+		// arity family: every operator on dotted shapes of 1-6 components (incl. empty components,
+		// wildcards and over-long arities that are not versions of the ecosystem)
+		var shapes []string
+		for k := 1; k <= 6; k++ {
+			toks := []string{"1", "0", "10", "x", "*", ""}
+			if k > 4 {
+				toks = []string{"1", "0", ""}
+			}
+			for _, t := range tuples(toks, k) {
+				shapes = append(shapes, strings.Join(t, "."))
+			}
+		}
+		for _, sh := range gen.Uniq(shapes) {
+			for _, op := range opSet {
+				c.checkRange(op + sh + syn.SingleSuffix)
+				r.Add("states", 1)
+			}
+			c.checkVersion(sh)
+		}
 		// byte-level specials substituted at / inserted before every position of every accepted short string
 		for _, ks := range shortAccepted {
 			kind, s := ks[:1], ks[2:]
@@ -460,7 +502,7 @@ func init() {
 				"statement_counter":             steps.Available,
 			}
 		},
-		Rule:        "for all 20 ecosystems, NewVersion and NewVersionRange are run on EVERY string of length <= 3 (quick) / 4 (thorough) over the 24-character syntax alphabet [0 1 a x . - ~ ^ * , | = < > ! [ ( ] ) SP _ : + v], on the grammar-shaped candidates of the other checks, and on every accepted string of length <= 3 with each of 10 byte-level specials (NUL, 0x7f, 0x80, 0xff, e-acute, an Arabic-Indic digit, NBSP, TAB, LF, CR) inserted before / substituted at every position; vers.Contains on 'vers:<scheme>/' + every string <= L over a 16-character alphabet for 11 schemes + 2 invalid ones, as range and as probe, plus raw strings and specials; CLI vectors; 22 growth families (digit runs, separator runs, operator runs, brackets, || and comma repetition ...) at n = 1k..4k (thorough ..16k, digit runs 96k) for every parser. Oracle: no panic; exactly one of value/error; follow-up Compare/String/Contains (twice on the same range object) do not panic; error => false for vers; every call stays within 50*n^2+1e6 injected-statement steps (an exceeded budget aborts the call deterministically - this is how hangs are detected) and steps(2n)/steps(n) <= 4.6 for every family. distinct_nontrivial = accepted inputs (those that exercise the follow-up operations).",
+		Rule:        "for all 20 ecosystems, NewVersion and NewVersionRange are run on EVERY string of length <= 3 (quick) / 4 (thorough) over the 24-character syntax alphabet [0 1 a x . - ~ ^ * , | = < > ! [ ( ] ) SP _ : + v], on the grammar-shaped candidates of the other checks, on every comparator and shorthand operator (^ ~ ~> ~= = == != .* .x brackets, hyphen) applied to every accepted universe version and probed also with that version, on every operator applied to every dotted shape of 1-6 components over {1,0,10,x,*,empty}, and on every accepted string of length <= 3 with each of 10 byte-level specials (NUL, 0x7f, 0x80, 0xff, e-acute, an Arabic-Indic digit, NBSP, TAB, LF, CR) inserted before / substituted at every position; vers.Contains on 'vers:<scheme>/' + every string <= L over a 16-character alphabet for 11 schemes + 2 invalid ones, as range and as probe, plus raw strings and specials; CLI vectors; 22 growth families (digit runs, separator runs, operator runs, brackets, || and comma repetition ...) at n = 1k..4k (thorough ..16k, digit runs 96k) for every parser. Oracle: no panic; exactly one of value/error; follow-up Compare/String/Contains (twice on the same range object) do not panic; error => false for vers; every call stays within 50*n^2+1e6 injected-statement steps (an exceeded budget aborts the call deterministically - this is how hangs are detected) and steps(2n)/steps(n) <= 4.6 for every family. distinct_nontrivial = accepted inputs (those that exercise the follow-up operations).",
 		Assumptions: []string{"statements are counted by overlay-injected counters in the repository's own sources; standard-library loops (regexp, strings, strconv) are not counted and are trusted to be at most quadratic", "the quantifier's coverage-guided fuzzing is not used (sampling); strings over characters outside the alphabet and specials are not explored"},
 	})
 }
